@@ -36,7 +36,9 @@ FAULTS = ['missing-file', 'few-events', 'fraction-neg', 'fraction-big', 'fractio
           'calib-nochannel', 'other-instrument', 'other-amp', 'other-voltage',
           # the same mismatches seen from the sample's side: the row shares the *healthy* rows' beads (Bgood) but its own
           # file / instrument differs, so any per-beads memo of a passed check would wrongly let it through
-          'sample-other-instrument', 'sample-other-amp', 'sample-other-voltage']
+          'sample-other-instrument', 'sample-other-amp', 'sample-other-voltage',
+          # only the row's SECOND calibrated channel was acquired with other settings than the beads (the first agrees)
+          'sample-other-amp-2nd', 'sample-other-voltage-2nd']
 
 
 def build_world(F, rng, base):
@@ -76,6 +78,8 @@ def build_world(F, rng, base):
     excelgen.sample_file(rng, i0, os.path.join(base, 's_few.fcs'), n=380)
     excelgen.sample_file(rng, i0, os.path.join(base, 's_volt.fcs'), n=460, voltage=[str(777 + j) for j in range(D)])
     excelgen.sample_file(rng, i0, os.path.join(base, 's_amp.fcs'), n=460, amp_log=False)
+    excelgen.sample_file(rng, i0, os.path.join(base, 's_volt2.fcs'), n=460, fl_overrides={1: {'pnv': '999'}})
+    excelgen.sample_file(rng, i0, os.path.join(base, 's_amp2.fcs'), n=460, fl_overrides={1: {'pne': '0,0'}})
     healthy = [dict(fp=files[0], u1='MEF', u2='a.u.', gf=0.5, beads='Bgood'),
                dict(fp=files[1], u1='RFI', u2='MEF', gf=0.85, beads='Bgood'),
                dict(fp=files[2], u1='MEF', u2=None, gf=0.3, beads='Bpartial'),
@@ -113,7 +117,10 @@ def apply_fault(h, kind, variant=0):
         if kind == 'sample-other-instrument':
             r['iid'] = 'I1'
         else:
-            r['fp'] = {'sample-other-amp': 's_amp.fcs', 'sample-other-voltage': 's_volt.fcs'}[kind]
+            r['fp'] = {'sample-other-amp': 's_amp.fcs', 'sample-other-voltage': 's_volt.fcs',
+                       'sample-other-amp-2nd': 's_amp2.fcs', 'sample-other-voltage-2nd': 's_volt2.fcs'}[kind]
+            if kind.endswith('-2nd'):
+                r['u2'] = 'MEF'
     else:
         r['u1'] = 'MEF'
         r['beads'] = {'calib-failed': 'Bfail', 'calib-nomef': 'Bnomef', 'other-instrument': 'Bother', 'other-amp': 'Bamp',
